@@ -29,3 +29,8 @@ Definition chk_S_hier_derived (expect : res (list vlab)) (probes : list vlab) (o
   | Err e => match observed with Err e' => String.eqb e e' | Ok _ => false end
   | Ok l => chk_S_hier l probes observed
   end.
+
+(* IndexHierarchyGO.append histories: outcome flags and the final observation against the specification *)
+Definition chk_S_hier_go (init ops : list vlab) (outs : list bool) (probes : list vlab) (observed : vhobs) : bool :=
+  let '(l, r) := S_hgo_run val_eqb (map lab_canon init) (map lab_canon ops) in
+  list_eqb Bool.eqb r outs && hobs_eqb (S_h_observe val_eqb l (map lab_canon probes)) (hobs_canon observed).
